@@ -171,6 +171,8 @@ func (server *SugarDB) handleCommand(ctx context.Context, message []byte, conn *
 				break
 			}
 		}
+		// Whatever the outcome of the command (success, error, not leader), the mutation is over when we return.
+		defer server.stateMutationInProgress.Store(false)
 	}
 
 	if !server.isInCluster() || !synchronize {
